@@ -171,6 +171,23 @@ fn oracle_constructors(inp: &PV, out: &PV) -> T {
         sp(out.at(9)),
         hs,
         tm::bconst(e.nodes.is_empty() && e.edges.is_empty() && e.adj.is_empty() && e.quot.is_empty() && e.s.is_empty() && e.t.is_empty()),
+        // strictification commutes with the constructors; spiders are defined on both sides or on neither
+        tm::and(
+            (0..3)
+                .map(|i| match (plain_some(out.at(12).at(i)), plain_some(out.at(13).at(i))) {
+                    (Some(p), Some(q)) => iso(&p, &q),
+                    _ => tm::FALSE,
+                })
+                .collect(),
+        ),
+        match (out.at(12).at(3).some(), out.at(13).at(3).some()) {
+            (None, None) => tm::TRUE,
+            (Some(p), Some(q)) => match (super::c01::plain_checked(p.oh()), super::c01::plain_checked(q.oh())) {
+                (Some(p), Some(q)) => iso(&p, &q),
+                _ => tm::FALSE,
+            },
+            _ => tm::FALSE,
+        },
     ])
 }
 
@@ -179,11 +196,16 @@ pub fn small_shapes(tier: Tier) -> Vec<LaxShape> {
     let mut v = vec![];
     let nmax = if tier == Tier::Quick { 2 } else { 3 };
     for n in 0..=nmax {
-        for ar in [vec![], vec![(1usize, 1usize)], vec![(0, 2)], vec![(2, 0)]] {
+        // the two-hyperedge shape has hyperedges of different incidence, so that their order is visible
+        for ar in [vec![], vec![(1usize, 1usize)], vec![(0, 2)], vec![(2, 0)], vec![(1, 0), (0, 1)]] {
             for q in 0..=2usize {
-                for a in 0..=2usize {
-                    for b in 0..=2usize {
+                // interfaces of length 3: boundaries that repeat nodes on both sides of a gluing
+                for a in 0..=3usize {
+                    for b in 0..=3usize {
                         if q == 2 && (a + b > 1 || !ar.is_empty()) {
+                            continue;
+                        }
+                        if (a == 3 || b == 3) && (q > 0 || !ar.is_empty() || a + b > 3) {
                             continue;
                         }
                         let sh = LaxShape::new(n, &ar, q, a, b);
@@ -327,6 +349,9 @@ pub fn c10_jobs(tier: Tier, seed: u64) -> Vec<Job> {
     groups.push(g3);
     // in-place forms: shared with the C02 lax jobs
     groups.push(c02_lax_jobs(tier, seed).into_iter().filter(|j| j.name.starts_with("lax tensor (+in-place")).collect());
+    // constructors: identity, symmetry, singleton, spiders (lax result against the closed form and against the
+    // strict constructor on the same arguments): shared with the C04 lax jobs
+    groups.push(c04_lax_jobs(tier, seed));
     for g in groups.iter_mut() {
         g.reverse();
     }
